@@ -269,12 +269,14 @@ class Implementation(type):
         members = _get_members(interfaces)
         overloads = _build_overloads(dct, members, interfaces)
 
+        # Reject an incomplete implementation before anything is registered.
+        for key, member_list in members.items():
+            for member in member_list:
+                if member.is_abstract and key not in overloads:
+                    raise TypeError(f"No implementation provided for {member}.")
+
         for key, member_list in members.items():
             overload = overloads.get(key)
-
-            for member in member_list:
-                if member.is_abstract and overload is None:
-                    raise TypeError(f"No implementation provided for {member}.")
 
             if overload is not None:
                 for member in member_list:
